@@ -261,6 +261,19 @@ def check(case, ctx):
                                     ctx.fail('reused-target-object', e, got, step=name, target=ts, query=qs,
                                              note='history on one parsed target: ' + ', '.join(h[0] for h in hist))
                                     break
+                        # the caller's own LIST of peptides used for two requests (modifications ignored, then respected)
+                        if qtag in (1, 12):
+                            lst = [qs]
+                            lib.call(p.coverage, ts, lst, True, True)
+                            lib.call(p.percent_coverage, ts, lst, ignore_mods=True)
+                            st, got = lib.call(p.coverage, ts, lst, False, False)
+                            ctx.evals += 3
+                            e = cover(T, [Q], False, False)
+                            if lst != [qs] or not isinstance(lst[0], str):
+                                ctx.fail('coverage-changes-the-list', [qs], [str(x) for x in lst], call=['coverage', ts, [qs]])
+                            elif st != 'ok' or list(got) != e:
+                                ctx.fail('coverage-second-use-of-list', e, got, call=['coverage', ts, [qs], False, False],
+                                         note='the same list object was used with ignore_mods=True before')
                         # two listed peptides with the same residues and different modifications, given as strings,
                         # as annotation objects, and mixed (the documentation recommends passing parsed objects)
                         if qtag in (1, 12):
